@@ -284,8 +284,31 @@ def _shard_entry(args):
         return ("ok", func(*shard_args))
     except Infra as e:
         return ("infra", str(e))
-    except Exception:  # pylint: disable=broad-except
-        return ("infra", traceback.format_exc())
+    except Exception as e:  # pylint: disable=broad-except
+        tb = traceback.format_exc()
+        if _data_dependent(e):
+            # The harness could not digest what the implementation produced or raised (a file it wrote does not parse, a
+            # result has another shape, an in-toto exception in a place where none is raised on the pinned tree). That is a
+            # break of the correspondence, not of the infrastructure: report it as one, so that the search for a failing
+            # input runs and the run ends with a VIOLATION line rather than with exit status 2.
+            res = Result()
+            res.evaluations += 1
+            res.fail("disagree", {"op": "harness", "shard": getattr(func, "__name__", str(func)),
+                                  "args": [a for a in shard_args if isinstance(a, (int, str, float, bool, type(None)))]},
+                     {"op": "harness could not process what the implementation produced",
+                      "exception": type(e).__name__, "traceback_tail": tb[-1500:]})
+            return ("ok", res)
+        return ("infra", tb)
+
+
+def _data_dependent(e):
+    """Exceptions that stem from the data the implementation handed back, as opposed to the machine the check runs on."""
+    if isinstance(e, (OSError, MemoryError, subprocess.TimeoutExpired, EOFError, ImportError, RecursionError)):
+        return False
+    mod = type(e).__module__ or ""
+    if mod.startswith(("in_toto", "securesystemslib")):
+        return True
+    return isinstance(e, (ValueError, KeyError, TypeError, AttributeError, IndexError, AssertionError, StopIteration))
 
 
 def parallel(func, shard_args_list, workers=None):
